@@ -1,4 +1,575 @@
 package main
 
-func cmdCheck(args []string)    {}
-func cmdBaseline(args []string) {}
+// Registered checks: decision policy (claimed / known finding / undecided / violation), evidence, replay files.
+
+import (
+	"encoding/json"
+	"flag"
+	"fmt"
+	"os"
+	"os/exec"
+	"path/filepath"
+	"sort"
+	"strconv"
+	"strings"
+	"time"
+
+	"golang.org/x/tools/go/ssa"
+)
+
+const verifRoot = "/verif"
+
+type SweepCfg struct {
+	Funcs   []string `json:"funcs"`   // short function keys, trailing * allowed
+	Classes []string `json:"classes"` // obligation classes claimed for these functions
+}
+
+type PropCfg struct {
+	Sweep       []SweepCfg `json:"sweep,omitempty"`
+	ExtraFuncs  []string   `json:"extra_funcs,omitempty"` // functions under contract elsewhere whose obligations also serve this property
+	Classes     []string   `json:"contract_classes,omitempty"`
+	Assumptions []string   `json:"assumptions,omitempty"`
+	NotDecided  []string   `json:"not_decided,omitempty"`
+}
+
+type ClaimEntry struct {
+	Result  string  `json:"result"`
+	Solver  string  `json:"solver,omitempty"`
+	Time    float64 `json:"time_s,omitempty"`
+	Claimed bool    `json:"claimed"`
+	Why     string  `json:"why_unclaimed,omitempty"`
+	Func    string  `json:"func"`
+}
+
+type Claims struct {
+	Props map[string]map[string]*ClaimEntry `json:"properties"`
+}
+
+type KnownFinding struct {
+	Property   string `json:"property,omitempty"`
+	Obligation string `json:"obligation,omitempty"`
+	What       string `json:"what,omitempty"`
+	DemoPkg    string `json:"demo_pkg,omitempty"`  // package directory relative to /repo the demo test is overlaid into
+	DemoFile   string `json:"demo_file,omitempty"` // test file under /verif/known
+	DemoTest   string `json:"demo_test,omitempty"` // test name; the test FAILS (exit!=0) while the defect is present
+	Fixed      string `json:"fixed,omitempty"`     // "fixed: property=<id> <commit> <what failed>"
+}
+
+func loadJSON(path string, v interface{}) error {
+	data, err := os.ReadFile(path)
+	if err != nil {
+		return err
+	}
+	return json.Unmarshal(data, v)
+}
+
+func loadProps() map[string]*PropCfg {
+	m := map[string]*PropCfg{}
+	if err := loadJSON(filepath.Join(verifRoot, "claims", "props.json"), &m); err != nil {
+		fmt.Fprintln(os.Stderr, "props.json:", err)
+		os.Exit(2)
+	}
+	return m
+}
+
+type propUnit struct {
+	fn      *ssa.Function
+	classes map[string]bool // nil = all
+	sweep   bool
+}
+
+func hasProp(ps []string, p string) bool {
+	for _, x := range ps {
+		if x == p {
+			return true
+		}
+	}
+	return false
+}
+
+// unitsFor lists the functions verified for a property and, per unit, the classes generated.
+func (e *Engine) unitsFor(prop string, cfg *PropCfg) []*propUnit {
+	seen := map[*ssa.Function]*propUnit{}
+	var out []*propUnit
+	add := func(fn *ssa.Function, classes []string, sweep bool) {
+		if pu, ok := seen[fn]; ok {
+			if pu.classes != nil {
+				if classes == nil {
+					pu.classes = nil
+				} else {
+					for _, c := range classes {
+						pu.classes[c] = true
+					}
+				}
+			}
+			return
+		}
+		pu := &propUnit{fn: fn, sweep: sweep}
+		if classes != nil {
+			pu.classes = map[string]bool{}
+			for _, c := range classes {
+				pu.classes[c] = true
+			}
+		}
+		seen[fn] = pu
+		out = append(out, pu)
+	}
+	for _, k := range e.contracts.Order {
+		fs := e.contracts.Funcs[k]
+		relevant := hasProp(fs.Props, prop)
+		for _, cl := range append(append([]*Clause{}, fs.Ensures...), fs.Requires...) {
+			if hasProp(cl.Props, prop) {
+				relevant = true
+			}
+		}
+		if fn, ok := e.funcsByKey[k]; ok && relevant && fn.Blocks != nil && !fs.Flags["trusted"] {
+			add(fn, nil, false)
+		}
+	}
+	if cfg != nil {
+		for _, sw := range cfg.Sweep {
+			for _, fn := range e.matchFuncs(sw.Funcs) {
+				if fn.Blocks != nil {
+					add(fn, sw.Classes, true)
+				}
+			}
+		}
+	}
+	sort.Slice(out, func(i, j int) bool { return e.funcKey(out[i].fn) < e.funcKey(out[j].fn) })
+	return out
+}
+
+var safetyClasses = map[string]bool{"bounds": true, "nilmap": true, "type-assert": true, "div0": true, "rand-arg": true, "panic": true, "nilptr": true, "lock": true, "overflow": true}
+
+// relevant decides whether obligation o of unit pu counts for property prop.
+func relevantObl(o *Obligation, pu *propUnit, prop string, spec *FuncSpec) bool {
+	if o.Canary {
+		return true
+	}
+	if len(o.Props) > 0 {
+		return hasProp(o.Props, prop)
+	}
+	// safety obligations without property tags belong to the property through the unit
+	if pu.classes != nil {
+		return pu.classes[o.Class]
+	}
+	if spec != nil && hasProp(spec.Props, prop) {
+		return true
+	}
+	return false
+}
+
+type oblReport struct {
+	ID     string  `json:"id"`
+	Class  string  `json:"class"`
+	Func   string  `json:"func"`
+	Pos    string  `json:"pos,omitempty"`
+	Desc   string  `json:"desc"`
+	Result string  `json:"result"`
+	Solver string  `json:"solver,omitempty"`
+	Time   float64 `json:"time_s"`
+}
+
+type checkRun struct {
+	prop       string
+	tier       string
+	seed       int
+	eng        *Engine
+	cfg        *PropCfg
+	obls       []*Obligation
+	units      []*UnitResult
+	notes      map[string]bool
+	outOfReach []string
+}
+
+func (e *Engine) runProperty(prop string, cfg *PropCfg, scfg SolveCfg) *checkRun {
+	cr := &checkRun{prop: prop, eng: e, cfg: cfg, notes: map[string]bool{}}
+	units := e.unitsFor(prop, cfg)
+	for _, pu := range units {
+		res := e.verifyUnit(pu.fn, pu.classes)
+		cr.units = append(cr.units, res)
+		if res.Failed != "" {
+			cr.outOfReach = append(cr.outOfReach, res.Func+": "+res.Failed)
+			continue
+		}
+		spec := e.specFor(pu.fn)
+		used := false
+		for _, o := range res.Obls {
+			if relevantObl(o, pu, prop, spec) {
+				cr.obls = append(cr.obls, o)
+				used = true
+			}
+		}
+		if used {
+			for _, n := range res.Notes {
+				cr.notes[n] = true
+			}
+		}
+	}
+	solveAll(cr.obls, scfg)
+	return cr
+}
+
+func cmdBaseline(args []string) {
+	fs := flag.NewFlagSet("baseline", flag.ExitOnError)
+	timeout := fs.Int("t", 20, "solver timeout")
+	maxClaim := fs.Float64("max", 8.0, "claim only obligations discharged faster than this (s)")
+	fs.Parse(args)
+	props := loadProps()
+	eng, err := loadEngine("/repo", []string{"./..."})
+	if err != nil {
+		fmt.Fprintln(os.Stderr, "load:", err)
+		os.Exit(2)
+	}
+	claims := &Claims{Props: map[string]map[string]*ClaimEntry{}}
+	old := &Claims{}
+	loadJSON(filepath.Join(verifRoot, "claims", "claimed.json"), old)
+	only := map[string]bool{}
+	for _, a := range fs.Args() {
+		only[a] = true
+	}
+	scfg := SolveCfg{TimeoutS: *timeout, Workers: 16, TmpDir: filepath.Join(os.TempDir(), "gowp-q"), CacheDir: filepath.Join(verifRoot, ".cache")}
+	for _, p := range sortedKeys(props) {
+		if len(only) > 0 && !only[p] {
+			if old.Props != nil && old.Props[p] != nil {
+				claims.Props[p] = old.Props[p]
+			}
+			continue
+		}
+		cr := eng.runProperty(p, props[p], scfg)
+		m := map[string]*ClaimEntry{}
+		nc, nu := 0, 0
+		for _, o := range cr.obls {
+			ce := &ClaimEntry{Result: o.Result, Solver: strings.TrimSuffix(o.Solver, " (cached)"), Time: round3(o.Time), Func: o.Func}
+			if o.Canary {
+				ce.Claimed = o.Result == "sat"
+			} else if o.Result == "unsat" && o.Time <= *maxClaim {
+				ce.Claimed = true
+			} else if o.Result == "unsat" {
+				ce.Why = "discharged but slower than the claim threshold (unstable)"
+			} else if o.Result == "sat" {
+				ce.Why = "not discharged: solver reports a counter-model (contract hole, abstraction, or defect; see known_findings.json for the replayed ones)"
+			} else {
+				ce.Why = "undecided: solver timeout/unknown"
+			}
+			if ce.Claimed {
+				nc++
+			} else {
+				nu++
+			}
+			m[o.ID] = ce
+		}
+		claims.Props[p] = m
+		fmt.Printf("%s: %d obligations, %d claimed, %d unclaimed, %d units out of reach\n", p, len(cr.obls), nc, nu, len(cr.outOfReach))
+		for _, x := range cr.outOfReach {
+			fmt.Println("   out of reach:", x)
+		}
+	}
+	data, _ := json.MarshalIndent(claims, "", " ")
+	os.MkdirAll(filepath.Join(verifRoot, "claims"), 0o755)
+	os.WriteFile(filepath.Join(verifRoot, "claims", "claimed.json"), append(data, '\n'), 0o644)
+}
+
+func round3(f float64) float64 { return float64(int(f*1000+0.5)) / 1000 }
+
+func cmdCheck(args []string) {
+	fs := flag.NewFlagSet("check", flag.ExitOnError)
+	repo := fs.String("repo", "/repo", "repository root")
+	fs.Parse(args)
+	if fs.NArg() < 1 {
+		usage()
+	}
+	prop := fs.Arg(0)
+	tier := "quick"
+	if fs.NArg() >= 2 {
+		tier = fs.Arg(1)
+	}
+	if t := os.Getenv("VERIF_TIER"); t == "quick" || t == "thorough" {
+		if fs.NArg() < 2 {
+			tier = t
+		}
+	}
+	seed, _ := strconv.Atoi(os.Getenv("VERIF_SEED"))
+	t0 := time.Now()
+	props := loadProps()
+	cfg, ok := props[prop]
+	if !ok {
+		fmt.Fprintln(os.Stderr, "unknown property", prop)
+		os.Exit(2)
+	}
+	claims := &Claims{}
+	if err := loadJSON(filepath.Join(verifRoot, "claims", "claimed.json"), claims); err != nil {
+		fmt.Fprintln(os.Stderr, "claimed.json:", err)
+		os.Exit(2)
+	}
+	var known []*KnownFinding
+	loadJSON(filepath.Join(verifRoot, "claims", "known_findings.json"), &known)
+	eng, err := loadEngine(*repo, []string{"./..."})
+	if err != nil {
+		// the tree does not load: nothing can be decided; this is a broken run, not a verdict
+		fmt.Fprintln(os.Stderr, "cannot load repository:", err)
+		os.Exit(2)
+	}
+	timeout := 20
+	if tier == "thorough" {
+		timeout = 60
+	}
+	scfg := SolveCfg{TimeoutS: timeout, Workers: 16, TmpDir: filepath.Join(os.TempDir(), "gowp-q"), CacheDir: filepath.Join(verifRoot, ".cache")}
+	cr := eng.runProperty(prop, cfg, scfg)
+	cr.tier, cr.seed = tier, seed
+	baseline := claims.Props[prop]
+	if baseline == nil {
+		baseline = map[string]*ClaimEntry{}
+	}
+	// a claimed obligation that timed out is retried alone with a longer limit before it can become an alarm
+	var retry []*Obligation
+	for _, o := range cr.obls {
+		if ce := baseline[o.ID]; ce != nil && ce.Claimed && o.Result == "unknown" {
+			retry = append(retry, o)
+		}
+	}
+	if len(retry) > 0 {
+		r := scfg
+		r.TimeoutS, r.Workers = scfg.TimeoutS*4, 4
+		solveAll(retry, r)
+	}
+	// function-level cleanliness at baseline: every obligation of the function was claimed
+	cleanFn := map[string]bool{}
+	for _, ce := range baseline {
+		if _, ok := cleanFn[ce.Func]; !ok {
+			cleanFn[ce.Func] = true
+		}
+		if !ce.Claimed {
+			cleanFn[ce.Func] = false
+		}
+	}
+	knownBy := map[string]*KnownFinding{}
+	for _, k := range known {
+		if k.Property == prop && k.Obligation != "" {
+			knownBy[k.Obligation] = k
+		}
+	}
+	var violations, knownHit, undecided []*Obligation
+	nClaimed, nDischarged := 0, 0
+	bySolver := map[string]int{}
+	byClass := map[string]int{}
+	var solverTime, maxTime float64
+	for _, o := range cr.obls {
+		ok := o.Result == "unsat"
+		if o.Canary {
+			// vacuity canary: only a refutation (unsat = no return reachable under the precondition) is an alarm;
+			// "unknown" (quantified invariants) is inconclusive and is not counted as discharged
+			if o.Result == "unknown" {
+				continue
+			}
+			ok = o.Result == "sat"
+		}
+		ce := baseline[o.ID]
+		claimed := ce != nil && ce.Claimed
+		isNew := ce == nil
+		if ok {
+			if claimed || isNew {
+				nClaimed++
+				nDischarged++
+				bySolver[strings.TrimSuffix(o.Solver, " (cached)")]++
+				byClass[o.Class]++
+				solverTime += o.Time
+				if o.Time > maxTime {
+					maxTime = o.Time
+				}
+			}
+			continue
+		}
+		switch {
+		case knownBy[o.ID] != nil:
+			knownHit = append(knownHit, o)
+		case claimed:
+			nClaimed++
+			violations = append(violations, o)
+		case isNew && cleanFn[o.Func] && o.Result == "sat":
+			nClaimed++
+			violations = append(violations, o)
+		default:
+			undecided = append(undecided, o)
+		}
+	}
+	// known findings: confirm each recorded demonstration still fails on the real code
+	exit := 0
+	var knownNames []string
+	if len(knownHit) > 0 {
+		confirmed := runDemos(*repo, knownHit, knownBy)
+		for _, o := range knownHit {
+			k := knownBy[o.ID]
+			if confirmed[o.ID] {
+				fmt.Printf("KNOWN-FINDING: property=%s %s [%s]\n", prop, k.What, o.ID)
+				knownNames = append(knownNames, o.ID)
+			} else {
+				nClaimed++
+				violations = append(violations, o)
+			}
+		}
+	}
+	for _, o := range violations {
+		path := writeReplay(prop, o, scfg)
+		suffix := " no-failing-input-found"
+		fmt.Printf("VIOLATION property=%s replay=%s%s\n", prop, path, suffix)
+		fmt.Printf("  obligation %s (%s) %s: %s\n", o.ID, o.Result, o.Pos, o.Desc)
+		exit = 1
+	}
+	if len(cr.obls) == 0 {
+		fmt.Fprintln(os.Stderr, "no obligations generated for", prop, "- broken check")
+		exit = 2
+	}
+	missing := 0
+	present := map[string]bool{}
+	for _, o := range cr.obls {
+		present[o.ID] = true
+	}
+	for id, ce := range baseline {
+		if ce.Claimed && !present[id] {
+			missing++
+		}
+	}
+	writeEvidence(cr, nClaimed, nDischarged, bySolver, byClass, solverTime, maxTime, knownNames, undecided, violations, missing, time.Since(t0).Seconds())
+	fmt.Printf("%s %s: %d claimed obligations, %d discharged, %d known findings, %d undecided (unclaimed), %d violations, %d units, %.1fs\n",
+		prop, tier, nClaimed, nDischarged, len(knownNames), len(undecided), len(violations), len(cr.units), time.Since(t0).Seconds())
+	os.Exit(exit)
+}
+
+// runDemos runs the recorded demonstrations (one go test invocation per package, via -overlay) and reports which still fail.
+func runDemos(repo string, obls []*Obligation, knownBy map[string]*KnownFinding) map[string]bool {
+	res := map[string]bool{}
+	byPkg := map[string][]*KnownFinding{}
+	oblOf := map[*KnownFinding][]string{}
+	for _, o := range obls {
+		k := knownBy[o.ID]
+		if k.DemoFile == "" {
+			continue
+		}
+		if len(oblOf[k]) == 0 {
+			byPkg[k.DemoPkg] = append(byPkg[k.DemoPkg], k)
+		}
+		oblOf[k] = append(oblOf[k], o.ID)
+	}
+	tmp, _ := os.MkdirTemp("", "gowp-demo")
+	defer os.RemoveAll(tmp)
+	for pkg, ks := range byPkg {
+		ov := map[string]map[string]string{"Replace": {}}
+		var tests []string
+		for i, k := range ks {
+			src := filepath.Join(verifRoot, "known", k.DemoFile)
+			dst := filepath.Join(repo, pkg, fmt.Sprintf("zz_gowp_known_%d_test.go", i))
+			ov["Replace"][dst] = src
+			tests = append(tests, k.DemoTest)
+		}
+		data, _ := json.Marshal(ov)
+		ovf := filepath.Join(tmp, "ov_"+sanitize(pkg)+".json")
+		os.WriteFile(ovf, data, 0o644)
+		cmd := exec.Command("go", "test", "-overlay", ovf, "-vet=off", "-count=1", "-timeout", "120s", "-run", "^("+strings.Join(tests, "|")+")$", "-v", "./"+pkg)
+		cmd.Dir = repo
+		cmd.Env = append(os.Environ(), "GOFLAGS=-mod=mod", "GOPROXY=off", "GOSUMDB=off", "GOTOOLCHAIN=local")
+		out, _ := cmd.CombinedOutput()
+		for _, k := range ks {
+			failed := strings.Contains(string(out), "--- FAIL: "+k.DemoTest)
+			for _, id := range oblOf[k] {
+				res[id] = failed
+			}
+		}
+	}
+	return res
+}
+
+func writeReplay(prop string, o *Obligation, scfg SolveCfg) string {
+	dir := filepath.Join(verifRoot, "replays", prop)
+	os.MkdirAll(dir, 0o755)
+	path := filepath.Join(dir, sanitize(o.ID)+".json")
+	model := ""
+	if o.Result == "sat" {
+		model = modelFor(o, scfg.TmpDir, scfg.TimeoutS)
+	}
+	r := map[string]interface{}{
+		"property": prop, "obligation": o.ID, "class": o.Class, "function": o.Func, "position": o.Pos, "source_line": o.Src,
+		"description": o.Desc, "solver_result": o.Result, "solver": o.Solver, "solver_output": truncate(o.Output, 4000),
+		"model": truncate(model, 20000), "failing_input": nil,
+		"note":       "no-failing-input-found: the obligation was discharged on the pinned tree and is not discharged on this tree; the solver's model (if any) is over the verifier's heap encoding and was not concretised into a Go input",
+		"query_file": path + ".smt2",
+	}
+	data, _ := json.MarshalIndent(r, "", " ")
+	os.WriteFile(path, data, 0o644)
+	os.WriteFile(path+".smt2", []byte(o.Query), 0o644)
+	return path
+}
+
+func truncate(s string, n int) string {
+	if len(s) > n {
+		return s[:n] + "...(truncated)"
+	}
+	return s
+}
+
+func writeEvidence(cr *checkRun, nClaimed, nDischarged int, bySolver, byClass map[string]int, solverTime, maxTime float64,
+	known []string, undecided, violations []*Obligation, missing int, wall float64) {
+	var fns []map[string]interface{}
+	for _, u := range cr.units {
+		m := map[string]interface{}{"func": u.Func, "ssa_instructions": u.Insts, "obligations": len(u.Obls)}
+		if u.Failed != "" {
+			m["out_of_reach"] = u.Failed
+		}
+		fns = append(fns, m)
+	}
+	var samples []oblReport
+	for i, o := range cr.obls {
+		if len(samples) >= 6 {
+			break
+		}
+		if (i+cr.seed)%(len(cr.obls)/6+1) == 0 {
+			samples = append(samples, oblReport{o.ID, o.Class, o.Func, o.Pos, o.Desc, o.Result, o.Solver, round3(o.Time)})
+		}
+	}
+	if len(samples) == 0 && len(cr.obls) > 0 {
+		o := cr.obls[0]
+		samples = append(samples, oblReport{o.ID, o.Class, o.Func, o.Pos, o.Desc, o.Result, o.Solver, round3(o.Time)})
+	}
+	var und []string
+	for _, o := range undecided {
+		und = append(und, o.ID+" ("+o.Result+")")
+	}
+	var notes []string
+	for n := range cr.notes {
+		notes = append(notes, n)
+	}
+	sort.Strings(notes)
+	assumptions := []string{
+		"go/packages + go/ssa (x/tools v0.29.0) build a faithful SSA of /repo's working tree; gowp's SSA->SMT translation is correct (DESIGN.md 2.4-2.5)",
+		"solver answers 'unsat' are sound (z3 5.1.0, z3 4.8.12, cvc5 1.0)",
+		"machine integers are mathematical integers (unsigned arithmetic wraps; signed overflow unchecked unless class overflow); float64 as reals; strings as (len, at) over an uninterpreted sort",
+		"sequential reasoning: no other goroutine changes the state between two instructions of the function under proof; `go` statements do not interleave",
+		"termination is not verified",
+	}
+	if cr.cfg != nil {
+		assumptions = append(assumptions, cr.cfg.Assumptions...)
+		for _, n := range cr.cfg.NotDecided {
+			assumptions = append(assumptions, "not decided by this check: "+n)
+		}
+	}
+	for _, n := range notes {
+		assumptions = append(assumptions, "abstraction/model used: "+n)
+	}
+	cov := map[string]interface{}{
+		"obligations": nClaimed, "discharged": nDischarged,
+		"checker_cmd":              "/verif/bin/gowp check " + cr.prop + " " + cr.tier + "  (one SMT-LIB query per obligation; z3-new -smt2 -T:N, then z3, then cvc5)",
+		"trusted_base":             []string{"golang.org/x/tools/go/ssa v0.29.0", "gowp VC generator (/verif/gowp)", "z3 5.1.0", "z3 4.8.12", "cvc5 1.0", "library models named under assumptions"},
+		"functions_under_contract": fns, "by_solver": bySolver, "by_class": byClass,
+		"solver_time_s": round3(solverTime), "max_query_time_s": round3(maxTime),
+		"known_findings": known, "unclaimed_undecided": und, "claimed_obligations_absent_from_this_tree": missing,
+		"out_of_reach": cr.outOfReach, "samples": samples,
+		"explanation": "obligations = claimed obligations (discharged on the pinned tree, or new on a function that was fully discharged) generated from the current tree; discharged = those answered unsat now. Known findings and obligations unclaimed at baseline are listed separately and never counted.",
+	}
+	ev := map[string]interface{}{
+		"property_id": cr.prop, "tier": cr.tier, "seed": cr.seed, "level": "proof", "coverage": cov,
+		"assumptions": assumptions, "wall_s": round3(wall), "violations": len(violations),
+	}
+	data, _ := json.MarshalIndent(ev, "", " ")
+	os.MkdirAll(filepath.Join(verifRoot, "evidence"), 0o755)
+	os.WriteFile(filepath.Join(verifRoot, "evidence", cr.prop+".json"), append(data, '\n'), 0o644)
+}
